@@ -1,5 +1,29 @@
-import TapkeeVerif.Model.FibHeap
-import TapkeeVerif.Model.FibHeapSpec
+import TapkeeVerif.Proofs.FibHeapRefine
+/-!
+Property C16 — the Fibonacci heap (`include/tapkee/utils/fibonacci_heap.hpp`) is a correct indexed
+min-priority queue under every history.  Statements about the executable model
+`Model/FibHeap.lean` (validated byte-for-byte against the real class by `checks/c16.py`);
+all quantify over every capacity and every operation list.
+-/
 namespace TapkeeVerif.FibHeap
-theorem placeholder_size_nil : F.size .nil = 0 := rfl
+
+/-- Every reachable heap satisfies the invariant `Inv` (heap order and degree discipline in every
+    tree, `rank` = number of children, `min_root` minimal among the roots, stored indices distinct
+    and `< capacity`, `num_nodes` = number of stored nodes). -/
+theorem inv_reachable (cap dn : Nat) (ops : List Op) (h : Heap) (outs : List Out)
+    (hrun : run (Heap.init cap dn) ops = .ok (h, outs)) : Inv h :=
+  (run_ok ops (inv_init cap dn) (List.Perm.refl _) hrun).1
+
+/-- Every output sequence of the model is one the finite-map specification allows. -/
+theorem refines_map (cap dn : Nat) (ops : List Op) (h : Heap) (outs : List Out)
+    (hrun : run (Heap.init cap dn) ops = .ok (h, outs)) : Spec.accepts cap [] ops outs = true :=
+  (run_ok ops (inv_init cap dn) (List.Perm.refl _) hrun).2
+
+/-- `decrease_key` never makes `min_root` point to a non-root node (the model's `corrupt` state is
+    unreachable). -/
+theorem no_corrupt (cap dn : Nat) (ops : List Op) : run (Heap.init cap dn) ops ≠ .error .corrupt := by
+  intro h
+  have := (run_error ops (inv_init cap dn) h).1
+  cases this
+
 end TapkeeVerif.FibHeap
